@@ -121,6 +121,11 @@ func (m *Modifier) ModifyResponse(res *http.Response) error {
 	// the response body.
 	rh := strings.ToLower(res.Request.Header.Get("Range"))
 	if !strings.HasPrefix(rh, "bytes=") {
+		if res.StatusCode < 200 || res.StatusCode == http.StatusNoContent || res.StatusCode == http.StatusNotModified {
+			// No body travels under these: the content is the answer now.
+			res.StatusCode = http.StatusOK
+			res.Status = fmt.Sprintf("%d %s", res.StatusCode, http.StatusText(res.StatusCode))
+		}
 		res.ContentLength = int64(len(m.body))
 		res.Body = ioutil.NopCloser(bytes.NewReader(m.body))
 
